@@ -821,6 +821,7 @@ class Rewriter:
         b = self.sub('R22:slice-hash', r'\bHash::hash\(&\*\*self, (\w+)\)', r'slice_hash(hs, self.as_slice(), \1, hl)', b)
         b = self.sub('R22:slice-cloned-iter', r'\bself\.iter\(\)\.cloned\(\)', 'slice_cloned_iter(hs, self.as_slice())', b)
         b = self.sub('R22:model-type', r'(?<![\w:])Vec::new_in\(', 'VecM::new_in(hs, ', b)
+        b = self.sub('R22:model-type', r'(?<![\w:])Vec::from_iter_in\(', 'VecM::from_iter_in(hs, ', b)
         b = self.sub('R22:model-type', r'(?<![\w:])RawVec::new_in\(', 'RawVecM::new_in(hs, ', b)
         b = self.sub('R22:model-type', r'(?<![\w:])ExtendElement\(', 'ExtendElement(', b)
         b = self.sub('R22:clone-token', r'\bself\.0\.clone\(\)', 'elem_clone(&e.0)', b)
@@ -885,6 +886,9 @@ class Rewriter:
         for name in ['push_str', 'push', 'reserve']:
             b = self.map_calls(b, r'\bself\.%s' % name, lambda m_, a, name=name: None if (a and a[0] == 'hs') else 'self.%s(%s)' % (name, ', '.join(['hs'] + a)), 'R12:thread-heap')
         # model types / constructors
+        b = self.sub('R25:model-type', r'(?<![\w:])String::new_in\(', 'StringM::new_in(hs, ', b)
+        b = self.sub('R25:model-type', r'(?<![\w:])String::from_iter_in\(', 'StringM::from_iter_in(hs, ', b)
+        b = self.sub('R12:thread-heap', r'\bs\.push\(c\)', 's.push(hs, c)', b)
         b = self.sub('R25:model-type', r'(?<![\w:])String::with_capacity_in\(', 'StringM::with_capacity_in(hs, ', b)
         b = self.sub('R25:model-type', r'(?<![\w:])String::from_utf8_unchecked\(', 'StringM::from_utf8_unchecked(Ghost(*hs), ', b)
         b = self.sub('R25:model-type', r'(?<![\w:])String \{', 'StringM {', b)
